@@ -204,12 +204,21 @@ Definition wrap_direct (pred : str -> bool) (fn : option proxy_fn) : option prox
   | Some f => Some (fun t => if pred (hostname t) then PDirect else f t)
   end.
 
+(* strings.TrimSuffix(s, ".") *)
+Definition strip_dot (s : str) : str := if last_is 46 s then removelast s else s.
+
+(* the spellings of the request's host the direct-domains matcher is asked about: as written; as the transport
+   will connect to it (asciiHostname); each without the trailing dot of a fully qualified name (matchesAnyForm) *)
+Definition direct_forms (cfg : config) (h : str) : list str :=
+  h :: (if direct_domains_maps_idna then [c_idna cfg h] else []) ++
+       (if direct_domains_strips_dot then [strip_dot h; strip_dot (c_idna cfg h)] else []).
+
 Definition apply_wrapper (cfg : config) (fn : option proxy_fn) (w : str) : option proxy_fn :=
   if str_eqb w (b "direct-domains") then
     (* the matcher is asked about the name as written and, when the source does so, about the name the
        transport will connect to (asciiHostname) *)
     match c_direct cfg with
-    | Some m => wrap_direct (fun h => m h || (direct_domains_maps_idna && m (c_idna cfg h))) fn
+    | Some m => wrap_direct (fun h => existsb m (direct_forms cfg h)) fn
     | None => fn
     end
   else if str_eqb w (b "direct-localhost") then
